@@ -95,11 +95,14 @@ func (v *StructSchema) Pick(picks ...any) *StructSchema {
 	for _, pick := range picks {
 		switch pick := pick.(type) {
 		case string:
-			new.schema[pick] = v.schema[pick]
+			// a key the schema does not have selects nothing
+			if s, ok := v.schema[pick]; ok {
+				new.schema[pick] = s
+			}
 		case map[string]bool:
 			for k, pick := range pick {
-				if pick {
-					new.schema[k] = v.schema[k]
+				if s, ok := v.schema[k]; ok && pick {
+					new.schema[k] = s
 				}
 			}
 		}
